@@ -242,6 +242,41 @@ def data_framing(ctx):
     vlib.handle_results(ctx, 'data-framing', 'model DataFraming.dataPhase + Session.step vs the real server in DATA', dis, fails, known_class=known_class)
 
 
+def data_after_queue_fault(ctx):
+    """The message is refused because a write to qmail-queue fails (the child has gone away) and the rest of the
+    payload contains malformed lines and lines that look like commands: nothing of the payload in front of its
+    CRLF . CRLF may be run as a command (judged on the transcript alone: exactly one reply to the message, then
+    the replies to the commands behind the terminator)."""
+    import session, smtpworld as W
+    b = session.build_qsmtpd(ctx)
+    if not b:
+        return
+    tails = [b'bad\nline\r\nVRFY alice\r\nRSET\r\nMAIL FROM:<evil@remote.example>\r\n', b'x\ry\r\nNOOP\r\n' + b'z' * 1100 + b'\r\nRSET\r\n',
+             b'a' * 1500 + b'\r\nRSET\r\nMAIL FROM:<evil@remote.example>\r\n', b'ok line\r\nRSET\r\n', b'\n\r\nQUIT\r\n']
+    scs, meta = [], []
+    for tail in tails:
+        for fault in ('write 9 err 32', 'write 10 err 28', 'write 12 short 1', 'write 11 err 32'):
+            payload = b'Subject: s\r\n\r\nl1\r\nl2\r\nl3\r\nl4\r\n' + tail + b'.\r\n'
+            items = session.lockstep([W.VOCAB[n][0] + b'\r\n' for n in ('ehlo', 'mail', 'rcpt_alice')] + [b'DATA\r\n'])
+            items += [('S', payload), ('W',), ('S', b'NOOP\r\n'), ('W',), ('S', b'QUIT\r\n'), ('W',)]
+            sc = W.base_scenario(qq=['all all 0']); sc.items = items
+            sc.extra_files['qfault'] = (fault + '\n').encode()
+            scs.append(sc); meta.append('data-after-queue-fault %s | %s' % (fault, hexs(tail)))
+    fails = []
+    for case, r in zip(meta, session.run_sessions(ctx, b, scs)):
+        codes = r.codes()
+        after = codes[codes.index('354') + 1:] if '354' in codes else None
+        if r.fault:
+            fails.append((case, 'session', 'fails memory-safety-or-crash: ' + r.fault[:150]))
+        elif after is None:
+            fails.append((case, str(codes), 'fails harness: DATA was not answered 354'))
+        elif len(after) != 3 or after[0][:1] not in '45' or after[1:] != ['250', '221']:
+            fails.append((case, str(codes), 'fails payload-run-as-commands: behind the refused message the replies are not those of NOOP and QUIT alone'))
+        ctx.count('data-after-queue-fault-sessions')
+    ctx.cov['evaluations'] += len(scs); ctx.cov['traces_validated_against_impl'] += len(scs)
+    vlib.handle_results(ctx, 'data-after-queue-fault', 'framing clause on the real server transcript (queue write fails, malformed tail)', [], fails)
+
+
 def known_class(f, case, impl, clause):
     return f.get('id') == 'c05-terminator-after-stray-eol' and clause.startswith('fails terminator-is-tail-of-malformed-line')
 
@@ -259,6 +294,7 @@ def run(ctx):
         fails += [(c, ho, 'fails memory-safety-or-crash') for c, ho, mo in res if ho.startswith('FAULT') or ho == 'HANG']
         vlib.handle_results(ctx, 'net_read-chunk-independence', 'net_read', [], fails)
     data_framing(ctx)
+    data_after_queue_fault(ctx)
     if not ctx.quick():
         vlib.leanchecker(ctx, ['QsmtpModel.Props.C05'])
     return vlib.finish(ctx, assumptions=['read(2)/poll(2) deliver the byte stream in order, in arbitrary positive chunks'])
